@@ -29,12 +29,17 @@ def scratch_repo():
     return d, repo
 
 
+def suffix(v, rnd):
+    k = ord(v) - ord("a") + 2 * (rnd - 1)
+    return chr(ord("a") + k) if k < 26 else "z" + chr(ord("a") + k - 26)
+
+
 def cmd_import(wt, pid, rnd=1):
     for v in ("A", "B"):
         src = os.path.join(wt, "SEEDED", v)
         if not os.path.isdir(src):
             continue
-        letter = chr(ord(v.lower()) + 2 * (rnd - 1))  # round 2 -> c, d; round 3 -> e, f
+        letter = suffix(v.lower(), rnd)  # round 2 -> c, d; round 3 -> e, f; round 14 -> za, zb
         dst = os.path.join(SEEDED, f"{pid}-{letter}")
         os.makedirs(dst, exist_ok=True)
         for f in os.listdir(src):
@@ -158,7 +163,7 @@ def cmd_round(rnd):
         cmd_import(wt, pid, rnd)
         sh(["git", "-C", "/repo", "worktree", "remove", "--force", wt])
         for v in ("a", "b"):
-            names.append(f"{pid}-{chr(ord(v) + 2 * (rnd - 1))}")
+            names.append(f"{pid}-{suffix(v, rnd)}")
     import io, contextlib
     buf = io.StringIO()
     with contextlib.redirect_stdout(buf):
